@@ -796,11 +796,11 @@ def grid_2d_of_points_within_radius(
     for i in range(len(grid_2d[:, 0])):
         if (grid_2d[i, 0] - centre[0]) ** 2 + (
             grid_2d[i, 1] - centre[1]
-        ) ** 2 > radius**2:
+        ) ** 2 <= radius**2:
             y_inside.append(grid_2d[i, 0])
             x_inside.append(grid_2d[i, 1])
 
-    return np.asarray(y_inside, x_inside)
+    return np.stack((np.asarray(y_inside), np.asarray(x_inside)), axis=-1)
 
 
 def compute_polygon_area(points):
